@@ -2,6 +2,7 @@
 
 from __future__ import annotations
 
+import heapq
 import json
 from collections.abc import Iterable, Iterator, Mapping
 from dataclasses import dataclass, field, replace
@@ -643,7 +644,8 @@ class Hugr(Mapping[Node, NodeData], Generic[OpVarCov]):
         """
         mapping: dict[Node, Node] = {}
 
-        for node, node_data in hugr.nodes():
+        for node in hugr._hierarchy_order():
+            node_data = hugr[node]
             # relies on parents being inserted before any children
             try:
                 node_parent = mapping[node_data.parent] if node_data.parent else parent
@@ -663,9 +665,35 @@ class Hugr(Mapping[Node, NodeData], Generic[OpVarCov]):
             )
         return mapping
 
+    def _hierarchy_order(self) -> list[Node]:
+        """The live nodes, ordered such that every node comes after its parent
+        and after its preceding siblings.
+
+        This is index order whenever index order already has that property,
+        which can only fail when the index of a deleted node has been reused.
+        """
+        order: list[Node] = []
+        seen: set[NodeIdx] = set()
+        next_sibling: dict[NodeIdx, NodeIdx] = {}
+        ready = [self.root.idx]
+        while ready:
+            idx = heapq.heappop(ready)
+            data = self[Node(idx)]
+            order.append(Node(idx, data.metadata))
+            seen.add(idx)
+            for child, sibling in zip(data.children, data.children[1:]):
+                next_sibling[child.idx] = sibling.idx
+            if data.children:
+                heapq.heappush(ready, data.children[0].idx)
+            if idx in next_sibling:
+                heapq.heappush(ready, next_sibling.pop(idx))
+        # nodes outside the hierarchy of the root keep their relative order
+        order.extend(node for node in self if node.idx not in seen)
+        return order
+
     def _to_serial(self) -> SerialHugr:
         """Serialize the HUGR."""
-        live = [(idx, node) for idx, node in enumerate(self._nodes) if node is not None]
+        live = [(node.idx, self[node]) for node in self._hierarchy_order()]
         # non contiguous indices will be erased: map every live index to its
         # position in the serialized node list
         rekey = {idx: pos for pos, (idx, _) in enumerate(live)}
